@@ -10,12 +10,12 @@ open ILV ILV.Batch ILV.Store ILV.Props.C31
 
 def sameSet (a b : List Tuple) : Prop := ∀ t, t ∈ a ↔ t ∈ b
 
-/-- **decode ∘ encode = id on homogeneous buffers**: all tuples share one non-empty kind vector made of
-    `Int32`/`Int64`/`Float64`/`String`/`Bool`/fixed-dimension (> 0) vectors. Bit-exact: values are bit
-    patterns, `-0.0` and NaN payloads included. -/
-theorem C12_homogeneous (ks : List DType) (hne : ks ≠ []) (hs : ks.all safeKind = true) (us : List Update)
+/-- **decode ∘ encode = id on homogeneous buffers**: all tuples share one kind vector — any kinds
+    (`Null`, `Timestamp`, vectors of dimension 0 included), any arity (0 included). Bit-exact: values are
+    bit patterns, `-0.0` and NaN payloads included. -/
+theorem C12_homogeneous (ks : List DType) (us : List Update)
     (h : ∀ u ∈ us, u.data.map dataType = ks) : batchCodec us = .ok us :=
-  batchCodec_homog ks hne hs us h
+  batchCodec_homog ks us h
 
 /-- a WAL line is read back unchanged iff it holds no non-finite float (the serde_json round trip of
     finite values being the trusted parameter). -/
@@ -28,8 +28,8 @@ theorem C12_partial (ks : String → List DType) (cfg : Cfg) (hm : cfg.mode = .i
     (he : Effective realCodec (Admissible ks) { cfg := cfg } h) (r : String) :
     (restart realCodec (run realCodec cfg h)).2 = none ∧
     sameSet (liveOf (restart realCodec (run realCodec cfg h)).1 r) (liveOf (run realCodec cfg h) r) := by
-  obtain ⟨hi, hm'⟩ := run_inv_from (realCodec_ok ks) (fun _ _ h => h.2.2.2.2) h { cfg := cfg } (Inv_init _ cfg) hm he
-  obtain ⟨a, _, _, d⟩ := restart_inv (realCodec_ok ks) (fun _ _ h => h.2.2.2.2) _ hi (hB_of_immediate hi.p hm')
+  obtain ⟨hi, hm'⟩ := run_inv_from (realCodec_ok ks) (fun _ _ h => h.2.2) h { cfg := cfg } (Inv_init _ cfg) hm he
+  obtain ⟨a, _, _, d⟩ := restart_inv (realCodec_ok ks) (fun _ _ h => h.2.2) _ hi (hB_of_immediate hi.p hm')
   exact ⟨a, fun t => d r t⟩
 
 /-- **C12 at full strength**: whatever tuples a fresh store accepts in one insert, a restart succeeds
@@ -44,27 +44,29 @@ def C12_statement : Prop :=
 theorem mixed_witness :
     liveOf (restart realCodec (run realCodec {} [.ins "m" [[.i64 1]], .ins "m" [[.str [120]]]])).1 "m" = [[.null], [.i64 1]] := by
   decide
-/-- a `Timestamp` comes back as `Int64`, alone in its column. -/
-theorem timestamp_witness :
-    liveOf (restart realCodec (run realCodec {} [.ins "m" [[.ts 9]], .ins "m" []])).1 "m" = [[.i64 9]] := by decide
-/-- a `Null` column makes the reopen fail. -/
-theorem null_witness : (restart realCodec (run realCodec {} [.ins "m" [[.null]], .ins "m" []])).2 = some "arrow" := by decide
+/-- repaired: a `Timestamp`, a `Null`, an empty vector and the empty tuple now survive a restart. -/
+theorem repaired_witnesses :
+    liveOf (restart realCodec (run realCodec {} [.ins "m" [[.ts 9]], .ins "n" [[.null]], .ins "v" [[.vec []]], .ins "z" [[]]])).1 "m" = [[.ts 9]] ∧
+    liveOf (restart realCodec (run realCodec {} [.ins "m" [[.ts 9]], .ins "n" [[.null]], .ins "v" [[.vec []]], .ins "z" [[]]])).1 "n" = [[.null]] ∧
+    liveOf (restart realCodec (run realCodec {} [.ins "m" [[.ts 9]], .ins "n" [[.null]], .ins "v" [[.vec []]], .ins "z" [[]]])).1 "v" = [[.vec []]] ∧
+    liveOf (restart realCodec (run realCodec {} [.ins "m" [[.ts 9]], .ins "n" [[.null]], .ins "v" [[.vec []]], .ins "z" [[]]])).1 "z" = [[]] := by
+  decide
 /-- a NaN that is still in the WAL is lost. -/
 theorem nan_witness :
     liveOf (restart realCodec (run realCodec {} [.ins "m" [[.f64 0x7ff8000000000000]], .ins "m" []])).1 "m" = [] := by decide
 
 theorem C12_refuted : ¬ C12_statement := by
   intro h
-  have := (h {} "m" [[.ts 9]] [] rfl).2 [.i64 9]
-  rw [timestamp_witness] at this
+  have := (h {} "m" [[.i64 1]] [[.str [120]]] rfl).2 [.null]
+  rw [mixed_witness] at this
   have h2 := this.1 (by simp)
   revert h2; decide
 
 /-- the hypotheses of `C12_partial` hold for a non-trivial history: a relation with columns
     (Int64, Float64, String, Vector[2]) receiving `-0.0`, a NaN-free payload, a non-ASCII string. -/
-def ksEx : String → List DType := fun _ => [.i64, .f64, .str, .vec 2]
-def tA : Tuple := [.i64 1, .f64 0x8000000000000000, .str [195, 169], .vec [0x3f800000, 0x80000000]]
-def tB : Tuple := [.i64 (-7), .f64 0x3ff8000000000000, .str [], .vec [0, 0x40000000]]
+def ksEx : String → List DType := fun _ => [.i64, .f64, .str, .vec 2, .ts, .null]
+def tA : Tuple := [.i64 1, .f64 0x8000000000000000, .str [195, 169], .vec [0x3f800000, 0x80000000], .ts 9, .null]
+def tB : Tuple := [.i64 (-7), .f64 0x3ff8000000000000, .str [], .vec [0, 0x40000000], .ts (-1), .null]
 
 example : Effective realCodec (Admissible ksEx) { cfg := { buffer := 1 } }
     [.ins "m" [tA], .ins "m" [tB], .restart, .del "m" [tA], .compact, .restart] := by decide
